@@ -19,7 +19,7 @@ func defaultProfile(name string) *Profile {
 		Name: name, WOwner: 3, WConsumer: 3, WProvider: 1, WStranger: 1, WModule: 0.5, WControl: 2,
 		Faults: allFaults(baseFaults...), FaultFree: 0.25,
 		Blocks: [2]int{30, 70}, BlocksThorough: [2]int{40, 250},
-		Boundary: 0.1, PrefixAddrs: 0.15, Replicas: 1, TimePromos: 0.3, ModuleCtx: 0.3, BigInitialHeight: 0.1,
+		Boundary: 0.1, PrefixAddrs: 0.15, Replicas: 1, TimePromos: 0.3, ModuleCtx: 0.3, BigInitialHeight: 0.1, Burst: 0.02,
 	}
 }
 
@@ -42,6 +42,7 @@ func profileFor(prop string) *Profile {
 	case "C06", "C07":
 		p.WConsumer, p.WOwner = 4, 3
 		p.TimePromos = 0.7
+		p.Burst = 0.05
 	case "C08":
 		p.WConsumer, p.WStranger = 4, 2
 	case "C09", "C11":
@@ -70,6 +71,7 @@ func profileFor(prop string) *Profile {
 		p.Faults["crash"] = true
 		p.Replicas = 2
 		p.Boundary = 0.4
+		p.Burst = 0.12
 		p.WStranger = 3
 	}
 	if prop == "C11" {
